@@ -112,3 +112,43 @@ COMMON_MODELS = {
     "grid_ufunc:_reattach_coords": m_reattach,
     "grid:Grid.get_metric": m_get_metric,
 }
+
+
+XARRAY_MODE_TO_RULE = {"wrap": "periodic", "constant": "fill", "edge": "extend"}  # what xarray.pad is asked to do <-> the rule in force
+
+
+def _unpack_pad_table(b, canon):
+    """Some trees hand the private padding helpers one table {axis: (xarray.pad mode, its keyword arguments)} in place of the two
+    mappings rule / fill value.  What xarray.pad is asked to do identifies the rule in force, so the table is read back into
+    the two mappings; the arguments after it move up one place."""
+    t = b.get("padding")
+    if not (isinstance(t, dict) and t and all(isinstance(v, tuple) and len(v) == 2 and isinstance(v[0], str) and isinstance(v[1], dict) for v in t.values())):
+        return b
+    if not all(v[0] in XARRAY_MODE_TO_RULE for v in t.values()):
+        return b
+    i = canon.index("padding")
+    tail = [b.get(k) for k in canon[i + 1:]]  # values bound one place too far to the left
+    out = dict(b)
+    out["padding"] = {ax: XARRAY_MODE_TO_RULE[v[0]] for ax, v in t.items()}
+    out["fill_value"] = {ax: v[1].get("constant_values", None) for ax, v in t.items()}
+    out["__fill_only_where_constant__"] = True
+    for k, v in zip(canon[i + 2:], tail):
+        out[k] = v
+    return out
+
+
+def bind_by_position(ev, q, canon, args, kw):
+    """Arguments of a modelled call of the package function `q`, keyed by the *canonical* names `canon` (one per parameter
+    position) whatever the source calls its parameters today and whether the caller passes them by position or by keyword."""
+    out = dict(zip(canon, args))
+    fi = ev.P.functions.get(q)
+    real = []
+    if fi is not None:
+        a = fi.node.args
+        real = [x.arg for x in a.posonlyargs + a.args] + [x.arg for x in a.kwonlyargs]
+    for k, v in kw.items():
+        if k in real and real.index(k) < len(canon):
+            out[canon[real.index(k)]] = v
+        else:
+            out[k] = v
+    return _unpack_pad_table(out, canon) if "padding" in canon else out
